@@ -11,6 +11,16 @@ from .core import Rng
 # property -> stages.  A stage is one engine on one build config with a run budget per tier:
 #   (engine module name, config, quick runs, quick seconds cap, thorough runs, thorough seconds cap, opts)
 PROPS = {
+    'C08': dict(
+        level='fault_enumeration',
+        rule=('allocsim: for each drawn (op, curve, input class, seed) the op runs fault-free under two garbage-fill '
+              'patterns, then once per selected allocation-failure point k (all k when the op makes <= max allocations, '
+              'else a seeded subset biased to the first/last points); after each failure the same call must reproduce '
+              'its fault-free result and a fixed probe its reference output, with no sanitizer report; distinct = '
+              '(op, curve) baselines and (op, signalled?, leaked?) failure outcomes'),
+        stages=[
+            ('allocsim', 'D', 1400, 200, 6000, 2400, {}),
+        ]),
     'C15': dict(
         level='exploration',
         rule=('drbgsim: seeded histories (1..64 ops) of instantiate/reseed/generate/integer-sampling/context-switch/'
@@ -67,6 +77,16 @@ def cmd_check(prop, tier, seed):
               % (prop, ename, config, tot['runs'], tot['planned'], tot['evals'], len(tot['keys']), tot['died'],
                  tot['hangs'], tot['wall_s']))
         sys.stdout.flush()
+        # listed known findings: one light confirmation each (fresh executor + fresh-process replay)
+        for sig, f in sorted(tot['known_seen'].items()):
+            if sig in reported:
+                continue
+            res = core.confirm_and_report(eng, config, tot['exe'], f, prop, seed, known, opts=dict(opts, prop=prop), light=True)
+            if res['kind'] == 'known':
+                reported.add(sig)
+                print('KNOWN-FINDING: property=%s %s [signature %s; replay=%s]' % (prop, res['what'], res['sig'], res['path']))
+            elif res['kind'] == 'unconfirmed':
+                print('NOTE: listed finding %s was met but did not reproduce in a fresh process (%s)' % (sig, res['why'][:200]))
         # confirm at most 4 distinct signatures per stage, lowest run index first
         seen = []
         tried = 0
